@@ -221,7 +221,7 @@ Fixpoint seq_loop (fuel : nat) (cf : cfg) (st : pst) (c : ch) (it : iter) (resul
       if lp then
         match next it0 with
         | None => Stop
-        | Some (c', it') => seq_loop f cf st c' it' result0 end_range escape_hyphen removed true
+        | Some (c', it') => seq_loop f cf st c' it' result0 0 escape_hyphen removed true     (* a class ends the pending range *)
         end
       else
         let vres : res (str * iter) :=
